@@ -37,7 +37,8 @@ ASSUMPTIONS = [
     "model follows the tree WITH proposed_fixes/C13-S4-S6.patch; on the unfixed tree the labelled injections "
     "`implements_object` (S4), `bad_name_input_field` (S6) and names with a trailing newline (S7) are reported as property failures",
     "`field.resolver = f` / `schema.default_resolver = f` assigned directly are outside the statement (not re-validated); not generated in histories",
-    "_replace_types_and_directives is exercised with single-entry maps only (multi-entry: busted_cache overwritten, ledger T3, C14)",
+    "model follows the tree WITH proposed_fixes/C13-T3b.patch (refusals of _replace_types_and_directives before any mutation, directives bust the caches); "
+    "what fix_type_references removes after a DELETION is taken from the live object (`healed`), not modelled",
 ]
 TRUSTED = [
     "py2lean.py translation of Schema.is_subtype (isinstance(GraphQLAbstractType/ObjectType) and is_possible_type as parameters)",
@@ -1093,9 +1094,19 @@ def gen_history(rng, desc, length):
                 fn = "nope"
             ops.append({"op": "register_subscription", "type": tn, "field": fn, "sig": sig, "allow_override": rng.random() < 0.5, "reuse": False})
         else:
-            cand = [x for x in desc["types"] if x["kind"] in ("object", "interface", "input", "enum")]
-            x = rng.choice(cand)
-            ops.append({"op": "replace_types", "type": x["name"], "mode": rng.choice(["same", "copy", "copy_bad", "copy_bad"])})
+            cand = [x["name"] for x in desc["types"] if x["kind"] in ("object", "interface", "input", "enum")]
+            k = rng.choice([1, 1, 2, 2, 3])
+            names = rng.sample(cand, min(k, len(cand)))
+            entries = [{"type": n, "mode": rng.choice(["same", "same", "copy", "copy_bad", "copy_bad", "delete", "other_kind"])}
+                       for n in names]
+            if rng.random() < 0.08:
+                entries.insert(rng.randint(0, len(entries)), {"type": rng.choice(["Int", "__Type", "Nope"]), "mode": "other_kind"})
+            dnames = [d["name"] for d in desc["directives"]]
+            dir_entries = []
+            if rng.random() < 0.35:
+                for n in rng.sample(dnames + ["newdir", "skip"], rng.choice([1, 1, 2])):
+                    dir_entries.append({"name": n, "mode": rng.choice(["same", "copy_bad", "copy", "delete"])})
+            ops.append({"op": "replace_types", "entries": entries, "dir_entries": dir_entries})
     ops.append({"op": "validate"})
     return ops
 
@@ -1106,6 +1117,7 @@ def run_history_real(schema, ops):
     from py_gql.schema import ObjectType
     trace, mops = [], []
     last_fn = {}
+    nomodel = False
     for op in ops:
         k = op["op"]
         outcome = "ok"
@@ -1133,23 +1145,58 @@ def run_history_real(schema, ops):
                 mop.update({"type": op["type"], "resolver": canon_schema.dump_resolver(fn), "allow_override": op["allow_override"]})
                 schema.register_default_resolver(op["type"], fn, allow_override=op["allow_override"])
             elif k == "replace_types":
-                orig = schema.types[op["type"]]
-                if op["mode"] == "same":
-                    new = orig
-                else:
-                    new = copy.copy(orig)
-                    if op["mode"] == "copy_bad":
-                        from py_gql.schema import Field, InputField, EnumType, EnumValue, Int, InputObjectType
-                        if isinstance(new, EnumType):
-                            new = EnumType(orig.name, list(orig.values) + [EnumValue("__bad%d" % len(orig.values))])
-                        elif isinstance(new, InputObjectType):
-                            new.fields = list(orig.fields) + [InputField("dup_in", lambda: schema.types["Query"])]
-                        else:
-                            new.fields = list(orig.fields) + [Field("__bad", Int)]
-                entry = canon_schema.dump_type(new, True)
-                entry["builtin"] = False
-                mop.update({"entries": [{"name": op["type"], "type": entry, "same": new is orig}]})
-                schema._replace_types_and_directives({op["type"]: new})
+                from py_gql.schema import (Field, InputField, EnumType, EnumValue, Int, InputObjectType, InterfaceType,
+                                           Directive, Argument)
+                types, mentries, deleting = {}, [], False
+                for e in op["entries"]:
+                    orig = schema.types.get(e["type"])
+                    mode = e["mode"]
+                    if orig is None or mode == "other_kind":
+                        new = (InterfaceType if isinstance(orig, ObjectType) else ObjectType)(e["type"], [Field("a", Int)])
+                    elif mode == "same":
+                        new = orig
+                    elif mode == "delete":
+                        new = None
+                        deleting = True
+                    else:
+                        new = copy.copy(orig)
+                        if mode == "copy_bad":
+                            if isinstance(new, EnumType):
+                                new = EnumType(orig.name, list(orig.values) + [EnumValue("__bad%d" % len(orig.values))])
+                            elif isinstance(new, InputObjectType):
+                                new.fields = list(orig.fields) + [InputField("dup_in", lambda: schema.types["Query"])]
+                            else:
+                                new.fields = list(orig.fields) + [Field("__bad", Int)]
+                    types[e["type"]] = new
+                    entry = None
+                    if new is not None:
+                        entry = canon_schema.dump_type(new, True)
+                        entry["builtin"] = False
+                    mentries.append({"name": e["type"], "type": entry, "same": new is orig})
+                dirs, mdirs = {}, []
+                for e in op.get("dir_entries", []):
+                    orig = schema.directives.get(e["name"])
+                    mode = e["mode"]
+                    if mode == "delete" and orig is not None:
+                        new = None
+                    elif mode == "same" and orig is not None:
+                        new = orig
+                    elif mode == "copy_bad":
+                        new = Directive(e["name"], ["FIELD"], [Argument("__x", Int)])
+                    else:
+                        new = Directive(e["name"], ["FIELD"], [Argument("x", Int)])
+                    dirs[e["name"]] = new
+                    dd = None
+                    if new is not None:
+                        dd = {"name": new.name, "locations": list(new.locations), "args": [canon_schema.dump_arg(a) for a in new.arguments], "desc": None}
+                    mdirs.append({"name": e["name"], "directive": dd, "same": new is orig})
+                mop.update({"entries": mentries, "dir_entries": mdirs})
+                try:
+                    schema._replace_types_and_directives(types, dirs)
+                finally:
+                    pass
+                if deleting:
+                    mop["healed"] = dump(schema)
         except SchemaValidationError:
             outcome = "SchemaValidationError"
         except UnknownType:
@@ -1160,14 +1207,40 @@ def run_history_real(schema, ops):
             outcome = "ValueError"
         except Exception as e:  # noqa
             outcome = "internal:" + type(e).__name__
+        if k == "replace_types" and outcome.startswith("internal"):
+            # healing after deletions is C14's subject: the history ends here
+            trace.append({"outcome": outcome, "cached": schema._is_valid is True, "fresh_valid": None})
+            mops.append(mop)
+            break
+        if k == "replace_types" and outcome != "ok" and not _REPLACE_ATOMIC[0]:
+            # a half-applied request leaves stale object references that the by-name dump cannot show:
+            # the model comparison ends with this step, the direct oracle goes on
+            nomodel = True
+        if nomodel:
+            trace.append({"outcome": outcome, "cached": schema._is_valid is True,
+                          "fresh_valid": real_validate(schema)[0] == "valid", "nomodel": True})
+            mops.append(mop)
+            continue
         fresh_valid = real_validate(schema)[0] == "valid"
         trace.append({"outcome": outcome, "cached": schema._is_valid is True, "fresh_valid": fresh_valid})
         mops.append(mop)
     return trace, mops
 
 
+_REPLACE_ATOMIC = [True]
+
+
+def op_sig(op, t):
+    if op["op"] != "replace_types":
+        return op["op"]
+    return "replace_types[%s%s]%s" % (",".join(sorted(e["mode"] for e in op["entries"])),
+                                      (";dir:" + ",".join(sorted(e["mode"] for e in op["dir_entries"]))) if op.get("dir_entries") else "",
+                                      "" if t["outcome"] == "ok" else ":" + t["outcome"])
+
+
 def stream_histories(ctx, batch):
     rng = ctx.rng
+    _REPLACE_ATOMIC[0] = X.replace_flags()[1]
     n = ctx.n(120, 1200)
     for i in range(n):
         if ctx.time_left() < 12:
@@ -1182,6 +1255,10 @@ def stream_histories(ctx, batch):
         if s is None:
             continue
         ops = gen_history(rng, base, rng.randint(2, 8))
+        if rng.random() < 0.3:
+            rep = [o for o in ops if o["op"] == "replace_types"] or [o for o in gen_history(rng, base, 12) if o["op"] == "replace_types"]
+            if rep:
+                ops = [{"op": "validate"}, rep[0], {"op": "validate"}]
         start = dump(s)
         cached0 = s._is_valid is True      # build_schema validates while building
         trace, mops = run_history_real(s, ops)
@@ -1195,17 +1272,27 @@ def stream_histories(ctx, batch):
                   "ops": ops, "trace": trace}
         # direct oracle: validate() returned (cached or not) on a schema a fresh validation rejects
         for idx, (o, t) in enumerate(zip(ops, trace)):
-            if t["outcome"].startswith("internal"):
+            if t["outcome"].startswith("internal") and o["op"] == "replace_types":
+                ctx.stat("replace-internal:" + t["outcome"])
+            elif t["outcome"].startswith("internal"):
                 ctx.fail("history-op-raises:%s:%s" % (o["op"], t["outcome"]), "a registration raises an undocumented exception", detail)
-            if o["op"] == "validate" and t["outcome"] == "ok" and not t["fresh_valid"]:
-                prev = [a["op"] for a in ops[:idx] if a["op"] != "validate"]
-                ctx.fail("stale-verdict-after:%s" % (prev[-1] if prev else "nothing"),
+            if o["op"] == "validate" and t["outcome"] == "ok" and t["fresh_valid"] is False:
+                prev = [(a, tt) for a, tt in zip(ops[:idx], trace[:idx]) if a["op"] != "validate"]
+                ctx.fail("stale-verdict-after:%s" % (op_sig(*prev[-1]) if prev else "nothing"),
                          "validate() accepts although the current schema is invalid (verdict not recomputed)", dict(detail, at=idx))
                 break
 
         def cont(ans, trace=trace, detail=detail, ops=ops):
             mt = ans.get("trace", [])
             for idx, (a, b) in enumerate(zip(trace, mt)):
+                if a["fresh_valid"] is None:
+                    break
+                if a.get("nomodel"):
+                    if (a["outcome"], a["cached"]) != (b["outcome"], b["cached"]):
+                        d2 = dict(detail)
+                        d2["model_trace"] = mt
+                        ctx.fail("corr:history:%s" % ops[idx]["op"], "cache machine and Schema differ (outcome / _is_valid)", d2, kind="correspondence")
+                    break
                 if a != b:
                     d2 = dict(detail)
                     d2["model_trace"] = mt
@@ -1287,7 +1374,7 @@ def replay(ctx, data):
     if how == "history":
         s = (build_code if inp.get("builder") == "build_code" else build_sdl)(desc)
         trace, _ = run_history_real(s, inp["ops"])
-        return not any(o["op"] == "validate" and t["outcome"] == "ok" and not t["fresh_valid"] for o, t in zip(inp["ops"], trace))
+        return not any(o["op"] == "validate" and t["outcome"] == "ok" and t["fresh_valid"] is False for o, t in zip(inp["ops"], trace))
     if how.startswith("perm"):
         b = build_code if "build_code" in how else (lambda d, o: build_sdl(d, o + list(range(len(o), gs.n_definitions(d)))))
         va = real_validate(b(desc, inp["order_a"]))[0]
